@@ -157,42 +157,189 @@ fn qp_error_class(e: &QueryParserError) -> String {
     }
 }
 
-/// what in the input could make the two grammars read it differently (for stable signatures)
-fn ast_diff_class(input: &str, strict: &qg::UserInputAst, lenient: &qg::UserInputAst) -> String {
-    let s = format!("{strict:?}");
-    let l = format!("{lenient:?}");
-    let mut tags = vec![];
-    if s.contains(" TO ") || l.contains(" TO ") {
-        tags.push("range");
+/// first structural difference between the two syntax trees, as a stable class name
+fn ast_diff_class(strict: &qg::UserInputAst, lenient: &qg::UserInputAst) -> String {
+    use qg::{UserInputAst as A, UserInputLeaf as L};
+    fn kind(a: &A) -> &'static str {
+        match a {
+            A::Clause(_) => "clause",
+            A::Boost(_, _) => "boost",
+            A::Leaf(l) => match **l {
+                L::Literal(_) => "literal",
+                L::All => "all",
+                L::Range { .. } => "range",
+                L::Set { .. } => "set",
+                L::Exists { .. } => "exists",
+                L::Regex { .. } => "regex",
+            },
+        }
     }
-    if s.contains("IN [") || l.contains("IN [") {
-        tags.push("set");
+    fn unquote(s: &str) -> Option<&str> {
+        for q in ['"', '\''] {
+            if s.len() >= 2 && s.starts_with(q) && s.ends_with(q) {
+                return Some(&s[1..s.len() - 1]);
+            }
+        }
+        None
     }
-    if s.contains("$exists") || l.contains("$exists") {
-        tags.push("exists");
+    fn bound(a: &qg::UserInputBound, b: &qg::UserInputBound) -> Option<String> {
+        if a == b {
+            return None;
+        }
+        if std::mem::discriminant(a) != std::mem::discriminant(b) {
+            return Some("range-bound-kind".into());
+        }
+        if a.term_str().contains('\\') {
+            return Some("range-bound-backslash-escape-read-only-by-lenient".into());
+        }
+        Some("range-bound-text".into())
     }
-    if input.contains('\\') {
-        tags.push("backslash");
+    fn leaf(s: &L, l: &L) -> String {
+        match (s, l) {
+            (L::Literal(a), L::Literal(b)) => {
+                if a.field_name != b.field_name {
+                    "literal-field".into()
+                } else if a.phrase != b.phrase {
+                    if b.phrase.starts_with(&a.phrase) {
+                        "literal-lenient-word-longer".into()
+                    } else {
+                        "literal-text".into()
+                    }
+                } else if a.delimiter != b.delimiter {
+                    "literal-delimiter".into()
+                } else {
+                    "literal-slop-or-prefix".into()
+                }
+            }
+            (L::Set { field: fa, elements: ea }, L::Set { field: fb, elements: eb }) => {
+                if fa != fb {
+                    return "set-field".into();
+                }
+                if ea.len() == eb.len() {
+                    for (x, y) in ea.iter().zip(eb.iter()) {
+                        if x != y {
+                            return if unquote(y).is_some() && !(unquote(x).is_some() && x == y) {
+                                "set-element-after-whitespace-keeps-its-quotes".into()
+                            } else {
+                                "set-element-text".into()
+                            };
+                        }
+                    }
+                }
+                "set-element-count".into()
+            }
+            (L::Range { field: fa, lower: la, upper: ua }, L::Range { field: fb, lower: lb, upper: ub }) => {
+                if fa != fb {
+                    return "range-field".into();
+                }
+                bound(la, lb).or_else(|| bound(ua, ub)).unwrap_or_else(|| "range".into())
+            }
+            (L::Regex { .. }, L::Regex { .. }) => "regex-text".into(),
+            (L::Exists { .. }, L::Exists { .. }) => "exists-field".into(),
+            (a, b) => format!(
+                "leaf-kind:{}-vs-{}",
+                kind(&A::Leaf(Box::new(a.clone()))),
+                kind(&A::Leaf(Box::new(b.clone())))
+            ),
+        }
     }
-    if input.contains('/') {
-        tags.push("slash");
+    fn walk(s: &A, l: &A) -> Option<String> {
+        if s == l {
+            return None;
+        }
+        match (s, l) {
+            (A::Clause(a), A::Clause(b)) => {
+                if a.len() != b.len() {
+                    // which side split the text into more operands?
+                    return Some(
+                        if a.len() > b.len() { "strict-splits-into-more-operands" } else { "lenient-splits-into-more-operands" }
+                            .to_string(),
+                    );
+                }
+                for ((oa, x), (ob, y)) in a.iter().zip(b.iter()) {
+                    if oa != ob {
+                        return Some("occur".into());
+                    }
+                    if let Some(c) = walk(x, y) {
+                        return Some(c);
+                    }
+                }
+                Some("clause".into())
+            }
+            (A::Boost(x, ba), A::Boost(y, bb)) => walk(x, y).or_else(|| if ba != bb { Some("boost-value".into()) } else { None }),
+            (A::Leaf(x), A::Leaf(y)) => Some(leaf(x, y)),
+            (x, y) => Some(format!("node-kind:{}-vs-{}", kind(x), kind(y))),
+        }
     }
-    if input.contains("NOT") {
-        tags.push("NOT");
+    walk(strict, lenient).unwrap_or_else(|| "none".into())
+}
+
+fn clip(s: String) -> String {
+    if s.chars().count() > 700 {
+        let mut t: String = s.chars().take(700).collect();
+        t.push_str("…");
+        t
+    } else {
+        s
     }
-    if input.contains('~') || input.contains('*') {
-        tags.push("slop-or-star");
+}
+
+/// Meaning-preserving rewrites of the input (for the strict grammar). If the strict tree stays
+/// the same and the lenient parser agrees on the rewritten text, the rewritten detail is the cause
+/// of the disagreement: the signature then names the cause instead of one of its many symptoms.
+fn repairs() -> &'static [(&'static str, regex::Regex, &'static str)] {
+    static R: OnceLock<Vec<(&'static str, regex::Regex, &'static str)>> = OnceLock::new();
+    R.get_or_init(|| {
+        let mk = |name, re: &str, to| (name, regex::Regex::new(re).expect("static regex"), to);
+        vec![
+            mk("lenient-mishandles-whitespace-after-set-open-bracket", r"(IN\s*\[)\s+", "$1"),
+            mk("lenient-mishandles-whitespace-before-range-close-bracket", r"\s+([\]\}])", "$1"),
+            mk("lenient-needs-a-blank-after-NOT", r"NOT[\t\r\n]\s*", "NOT "),
+        ]
+    })
+}
+
+fn cause_by_repair(input: &str, strict: &qg::UserInputAst) -> Option<(&'static str, String)> {
+    for (name, re, to) in repairs() {
+        let repaired = re.replace_all(input, *to);
+        if repaired == input {
+            continue;
+        }
+        let Ok(Ok(s2)) = guarded(|| qg::parse_query(&repaired)) else { continue };
+        if &s2 != strict {
+            continue;
+        }
+        let Ok((l2, e2)) = guarded(|| qg::parse_query_lenient(&repaired)) else { continue };
+        if e2.is_empty() && &l2 == strict {
+            return Some((name, repaired.into_owned()));
+        }
     }
-    if input.contains('^') {
-        tags.push("boost");
+    None
+}
+
+/// grammar-level agreement on one input; returns the violation (signature, detail) if any
+fn grammar_agreement(
+    input: &str,
+    strict: &qg::UserInputAst,
+    lenient: &qg::UserInputAst,
+    lerrs: &[qg::LenientError],
+) -> Option<(String, Value)> {
+    if lerrs.is_empty() && strict == lenient {
+        return None;
     }
-    if input.contains('-') || input.contains('+') {
-        tags.push("occur-char");
+    let symptom = if !lerrs.is_empty() {
+        format!("lenient-error:{}", lenient_error_class(&lerrs[0].message))
+    } else {
+        format!("ast-differs:{}", ast_diff_class(strict, lenient))
+    };
+    let mut detail = json!({"witness": witness(input), "strict_ast": clip(format!("{strict:?}")),
+        "lenient_ast": clip(format!("{lenient:?}")), "symptom": symptom,
+        "lenient_errors": lerrs.iter().take(8).map(|e| format!("{}@{}", e.message, e.pos)).collect::<Vec<_>>()});
+    if let Some((cause, repaired)) = cause_by_repair(input, strict) {
+        detail["agrees_after_rewriting_to"] = json!(clip(repaired));
+        return Some((format!("agree:grammar:strict-ok-{cause}"), detail));
     }
-    if tags.is_empty() {
-        tags.push("other");
-    }
-    tags.join("+")
+    Some((format!("agree:grammar:strict-ok-{symptom}"), detail))
 }
 
 #[derive(Default)]
@@ -204,6 +351,11 @@ struct Outcome {
     slowest: Duration,
 }
 
+/// panic signature on one line
+fn psig(p: &PanicInfo) -> String {
+    p.sig().split_whitespace().collect::<Vec<_>>().join(" ")
+}
+
 fn witness(input: &str) -> Value {
     let shown: String = input.chars().take(400).collect();
     json!({"input": shown, "input_debug": format!("{:?}", shown), "len_bytes": input.len()})
@@ -213,11 +365,13 @@ fn witness(input: &str) -> Value {
 fn check_totality(input: &str, rep: &mut Report) -> Outcome {
     let mut out = Outcome::default();
     let t0 = Instant::now();
+    let mut strict_panicked = false;
     let strict = match guarded(|| qg::parse_query(input)) {
         Ok(r) => r.ok(),
         Err(p) => {
+            strict_panicked = true;
             rep.violation(
-                format!("panic:grammar-parse_query:{}", p.sig()),
+                format!("panic:grammar-parse_query:{}", psig(&p)),
                 json!({"witness": witness(input), "panic": p.message, "at": p.location}),
             );
             None
@@ -227,7 +381,7 @@ fn check_totality(input: &str, rep: &mut Report) -> Outcome {
         Ok(r) => Some(r),
         Err(p) => {
             rep.violation(
-                format!("panic:grammar-parse_query_lenient:{}", p.sig()),
+                format!("panic:grammar-parse_query_lenient:{}", psig(&p)),
                 json!({"witness": witness(input), "panic": p.message, "at": p.location}),
             );
             None
@@ -248,51 +402,44 @@ fn check_totality(input: &str, rep: &mut Report) -> Outcome {
     }
     if let (Some(sast), Some((last, lerrs))) = (&strict, &lenient) {
         out.grammar_strict_ok = true;
-        if !lerrs.is_empty() {
+        if let Some((sig, detail)) = grammar_agreement(input, sast, last, lerrs) {
             grammar_disagrees = true;
-            rep.violation(
-                format!(
-                    "agree:grammar:strict-ok-lenient-error:{}",
-                    lenient_error_class(&lerrs[0].message)
-                ),
-                json!({"witness": witness(input), "strict_ast": format!("{sast:?}"),
-                       "lenient_ast": format!("{last:?}"),
-                       "lenient_errors": lerrs.iter().map(|e| format!("{}@{}", e.message, e.pos)).collect::<Vec<_>>()}),
-            );
-        } else if sast != last {
-            grammar_disagrees = true;
-            rep.violation(
-                format!(
-                    "agree:grammar:strict-ok-ast-differs:{}",
-                    ast_diff_class(input, sast, last)
-                ),
-                json!({"witness": witness(input), "strict_ast": format!("{sast:?}"),
-                       "lenient_ast": format!("{last:?}")}),
-            );
+            rep.violation(sig, detail);
         }
     } else if strict.is_some() {
         out.grammar_strict_ok = true;
     }
+    // a panic inside the grammar crate is reported once, not again for every QueryParser on top
+    let grammar_strict_panicked = strict.is_none() && strict_panicked;
+    let grammar_lenient_panicked = lenient.is_none();
     for (name, qp) in &env().parsers {
         let t1 = Instant::now();
-        let qs = match guarded(|| qp.parse_query(input)) {
+        let qs = if grammar_strict_panicked {
+            None
+        } else {
+            match guarded(|| qp.parse_query(input)) {
             Ok(r) => Some(r),
             Err(p) => {
                 rep.violation(
-                    format!("panic:QueryParser-parse_query:{}", p.sig()),
+                    format!("panic:QueryParser-parse_query:{}", psig(&p)),
                     json!({"witness": witness(input), "parser": name, "panic": p.message, "at": p.location}),
                 );
                 None
             }
+            }
         };
-        let ql = match guarded(|| qp.parse_query_lenient(input)) {
+        let ql = if grammar_lenient_panicked {
+            None
+        } else {
+            match guarded(|| qp.parse_query_lenient(input)) {
             Ok(r) => Some(r),
             Err(p) => {
                 rep.violation(
-                    format!("panic:QueryParser-parse_query_lenient:{}", p.sig()),
+                    format!("panic:QueryParser-parse_query_lenient:{}", psig(&p)),
                     json!({"witness": witness(input), "parser": name, "panic": p.message, "at": p.location}),
                 );
                 None
+            }
             }
         };
         out.slowest = out.slowest.max(t1.elapsed());
@@ -346,7 +493,7 @@ fn check_totality(input: &str, rep: &mut Report) -> Outcome {
                         }
                     }
                     (Err(p), _) | (_, Err(p)) => rep.violation(
-                        format!("panic:query-debug:{}", p.sig()),
+                        format!("panic:query-debug:{}", psig(&p)),
                         json!({"witness": witness(input), "parser": name, "panic": p.message}),
                     ),
                 }
@@ -394,9 +541,36 @@ fn has_meta(s: &str) -> bool {
 }
 
 fn run_one_total(class: &str, input: &str, rep: &mut Report) {
-    let out = check_totality(input, rep);
     rep.eval();
     rep.observe("input_class", class);
+    let out = match remote_check(input) {
+        Remote::Done(o) => o,
+        Remote::Failed { how, api, detail } => {
+            // the worker died or did not answer: hang, unbounded memory or stack overflow
+            let shape = if input_has_set_literal(input) { "set-literal" } else { "other-input" };
+            rep.count("total:inputs_without_result", 1);
+            rep.violation(
+                format!("{how}:{api}:{shape}"),
+                json!({"witness": witness(input), "class": class, "detail": detail}),
+            );
+            if has_meta(input) {
+                rep.nontrivial(format!("{class}|{}", skeleton(input)));
+            }
+            return;
+        }
+        Remote::Unreproduced(e) => {
+            rep.count("total:worker_failures_not_reproduced", 1);
+            rep.note(format!("{e}; input[..80]={:?}", input.chars().take(80).collect::<String>()));
+            return;
+        }
+        Remote::Harness(e) => {
+            rep.harness_error(format!("totality worker: {e}"));
+            return;
+        }
+    };
+    for (sig, detail) in out.violations {
+        rep.violation(sig, detail);
+    }
     for k in &out.lenient_err_kinds {
         rep.observe("grammar_lenient_error_kinds", k.clone());
     }
@@ -409,10 +583,10 @@ fn run_one_total(class: &str, input: &str, rep: &mut Report) {
         rep.count("total:grammar_strict_err", 1);
     }
     rep.count("total:queryparser_strict_ok", out.qp_strict_ok as u64);
-    if out.slowest > Duration::from_secs(2) {
+    if out.slowest_ms > 2000 {
         rep.note(format!(
-            "slow parse ({:?}) class={class} input[..80]={:?}",
-            out.slowest,
+            "slow parse ({} ms) class={class} input[..80]={:?}",
+            out.slowest_ms,
             input.chars().take(80).collect::<String>()
         ));
         rep.count("total:parses_over_2s", 1);
@@ -422,13 +596,24 @@ fn run_one_total(class: &str, input: &str, rep: &mut Report) {
     }
 }
 
+fn input_has_set_literal(input: &str) -> bool {
+    let mut rest = input;
+    while let Some(i) = rest.find("IN") {
+        let after = rest[i + 2..].trim_start_matches([' ', '\t', '\r', '\n']);
+        if after.starts_with('[') {
+            return true;
+        }
+        rest = &rest[i + 2..];
+    }
+    false
+}
+
 fn total_case(case: u64, rng: &mut Rng, rep: &mut Report, thorough: bool) {
     let (class, inputs) = gen_total_inputs(case, rng, thorough);
     rep.count(&format!("class:{class}"), inputs.len() as u64);
     let t0 = Instant::now();
     for (i, input) in inputs.iter().enumerate() {
         run_one_total(class, input, rep);
-        rep.count(&format!("class_ms:{class}"), 0);
         if case < 40 && i == 0 {
             rep.sample(json!({"stream": "total", "class": class, "input": input.chars().take(120).collect::<String>()}));
         }
@@ -503,10 +688,11 @@ fn sem_check(
     searcher: &tantivy::Searcher,
     text: &str,
     expected: &BTreeSet<u64>,
+    check_lenient: bool,
 ) -> SemResult {
     let strict = match guarded(|| qp.parse_query(text)) {
         Ok(r) => r,
-        Err(p) => return SemResult::Bad(format!("panic:{}", p.sig()), json!({"panic": p.message, "at": p.location})),
+        Err(p) => return SemResult::Bad(format!("panic:{}", psig(&p)), json!({"panic": p.message, "at": p.location})),
     };
     let q = match strict {
         Ok(q) => q,
@@ -517,20 +703,25 @@ fn sem_check(
             )
         }
     };
-    let (lq, lerrs) = match guarded(|| qp.parse_query_lenient(text)) {
-        Ok(r) => r,
-        Err(p) => return SemResult::Bad(format!("panic-lenient:{}", p.sig()), json!({"panic": p.message, "at": p.location})),
+    let lenient = if check_lenient {
+        let (lq, lerrs) = match guarded(|| qp.parse_query_lenient(text)) {
+            Ok(r) => r,
+            Err(p) => return SemResult::Bad(format!("panic-lenient:{}", psig(&p)), json!({"panic": p.message, "at": p.location})),
+        };
+        if !lerrs.is_empty() {
+            return SemResult::Bad(
+                format!("lenient-reports-error-on-valid-query:{}", qp_error_class(&lerrs[0])),
+                json!({"lenient_errors": lerrs.iter().map(|e| e.to_string()).collect::<Vec<_>>()}),
+            );
+        }
+        Some(lq)
+    } else {
+        None
     };
-    if !lerrs.is_empty() {
-        return SemResult::Bad(
-            format!("lenient-reports-error-on-valid-query:{}", qp_error_class(&lerrs[0])),
-            json!({"lenient_errors": lerrs.iter().map(|e| e.to_string()).collect::<Vec<_>>()}),
-        );
-    }
     let (count, ids) = match guarded(|| run_query(searcher, q.as_ref())) {
         Ok(Ok(r)) => r,
         Ok(Err(e)) => return SemResult::Bad("search-error".into(), json!({"error": e, "query": format!("{q:?}")})),
-        Err(p) => return SemResult::Bad(format!("panic-search:{}", p.sig()), json!({"panic": p.message, "at": p.location})),
+        Err(p) => return SemResult::Bad(format!("panic-search:{}", psig(&p)), json!({"panic": p.message, "at": p.location})),
     };
     if &ids != expected || count != expected.len() {
         let missing: Vec<u64> = expected.difference(&ids).copied().take(8).collect();
@@ -541,6 +732,9 @@ fn sem_check(
                    "parsed": format!("{q:?}")}),
         );
     }
+    let Some(lq) = lenient else {
+        return SemResult::Agree { matched: ids.len() };
+    };
     match guarded(|| run_query(searcher, lq.as_ref())) {
         Ok(Ok((lc, lids))) => {
             if lids != ids || lc != count {
@@ -551,7 +745,7 @@ fn sem_check(
             }
         }
         Ok(Err(e)) => return SemResult::Bad("search-error-lenient".into(), json!({"error": e})),
-        Err(p) => return SemResult::Bad(format!("panic-search:{}", p.sig()), json!({"panic": p.message})),
+        Err(p) => return SemResult::Bad(format!("panic-search:{}", psig(&p)), json!({"panic": p.message})),
     }
     SemResult::Agree { matched: ids.len() }
 }
@@ -570,7 +764,7 @@ fn sem_case(case: u64, rng: &mut Rng, rep: &mut Report, queries_per_corpus: usiz
             return;
         }
         Err(p) => {
-            rep.violation(format!("sem:panic:build-corpus:{}", p.sig()), json!(p.message));
+            rep.violation(format!("sem:panic:build-corpus:{}", psig(&p)), json!(p.message));
             return;
         }
     };
@@ -611,7 +805,7 @@ fn sem_case(case: u64, rng: &mut Rng, rep: &mut Report, queries_per_corpus: usiz
                         "sem:only-negative-query-not-rejected",
                         json!({"query": text, "mode": mode, "got": format!("{:?}", other.map(|q| format!("{q:?}")))}),
                     ),
-                    Err(p) => rep.violation(format!("sem:panic:{}", p.sig()), json!({"query": text, "panic": p.message})),
+                    Err(p) => rep.violation(format!("sem:panic:{}", psig(&p)), json!({"query": text, "panic": p.message})),
                 }
             }
             continue;
@@ -624,9 +818,41 @@ fn sem_case(case: u64, rng: &mut Rng, rep: &mut Report, queries_per_corpus: usiz
             rep.observe("sem:features", ft.clone());
         }
         let mut parsed_everywhere = true;
+        // strict/lenient agreement (and hangs) are judged in a worker process, exactly as in the
+        // totality stream; the lenient parser is only run in-process when that came back clean
+        let lenient_safe = match remote_check(&text) {
+            Remote::Done(o) => {
+                let clean = o.violations.is_empty();
+                for (sig, mut detail) in o.violations {
+                    detail["found_by"] = json!("sem stream (generated valid query)");
+                    rep.violation(sig, detail);
+                }
+                clean
+            }
+            Remote::Failed { how, api, detail } => {
+                let shape = if input_has_set_literal(&text) { "set-literal" } else { "other-input" };
+                rep.violation(
+                    format!("{how}:{api}:{shape}"),
+                    json!({"witness": witness(&text), "found_by": "sem stream (generated valid query)", "detail": detail}),
+                );
+                false
+            }
+            Remote::Unreproduced(e) => {
+                rep.count("total:worker_failures_not_reproduced", 1);
+                rep.note(e);
+                false
+            }
+            Remote::Harness(e) => {
+                rep.harness_error(format!("totality worker: {e}"));
+                false
+            }
+        };
+        if !lenient_safe {
+            rep.count("sem:queries_where_lenient_was_not_compared_in_process", 1);
+        }
         for (mode, conj, qp) in [("disj", false, &qp_dis), ("conj", true, &qp_conj)] {
             let expected = expected_ids(&node, &corpus.docs, conj);
-            match sem_check(qp, &searcher, &text, &expected) {
+            match sem_check(qp, &searcher, &text, &expected, lenient_safe) {
                 SemResult::Agree { matched } => {
                     rep.count("sem:queries_agree", 1);
                     rep.count("sem:docs_matched", matched as u64);
@@ -638,13 +864,24 @@ fn sem_case(case: u64, rng: &mut Rng, rep: &mut Report, queries_per_corpus: usiz
                     parsed_everywhere = false;
                     // shrink: find a smallest sub-query that still disagrees in the same way
                     let (min_node, min_text, min_detail, plain) =
-                        shrink(&node, &text, detail, &kind, qp, &searcher, &corpus.docs, conj);
+                        shrink(&node, &text, detail, &kind, qp, &searcher, &corpus.docs, conj, false);
                     let mf: Vec<String> = features(&min_node).into_iter().collect();
-                    let sig = format!(
-                        "sem:{kind}:{}{}",
-                        mf.join("+"),
-                        if plain { "" } else { ":print-dependent" }
-                    );
+                    let sig = if kind.starts_with("lenient") || kind.starts_with("panic-lenient") {
+                        // not shrunk (the lenient parser is not re-run on derived texts)
+                        format!("sem:{kind}")
+                    } else if kind.starts_with("panic") {
+                        // the panic site is the signature; the shrunk query is the witness
+                        format!("sem:{kind}")
+                    } else {
+                        format!(
+                            "sem:{kind}:{}:{}",
+                            mf.join("+"),
+                            match plain {
+                                Some(m) => m.label(),
+                                None => "only-with-the-original-noise",
+                            }
+                        )
+                    };
                     rep.violation(
                         sig,
                         json!({"mode": mode, "query": min_text, "query_debug": format!("{min_text:?}"),
@@ -678,20 +915,26 @@ fn shrink(
     searcher: &tantivy::Searcher,
     docs: &[MDoc],
     conj: bool,
-) -> (Node, String, Value, bool) {
-    let fails = |n: &Node| -> Option<(String, Value)> {
-        let t = print_query(n, &mut Rng::new(7), PrintMode::Plain);
+    check_lenient: bool,
+) -> (Node, String, Value, Option<PrintMode>) {
+    let fails_in = |n: &Node, mode: PrintMode| -> Option<(String, Value)> {
+        let t = print_query(n, &mut Rng::new(7), mode);
         let exp = expected_ids(n, docs, conj);
-        match sem_check(qp, searcher, &t, &exp) {
+        match sem_check(qp, searcher, &t, &exp, check_lenient) {
             SemResult::Bad(k, d) if k == kind => Some((t, d)),
             _ => None,
         }
     };
-    let Some((mut cur_text, mut cur_detail)) = fails(node) else {
-        return (node.clone(), text.to_string(), detail, false);
+    // which deterministic rendering reproduces it?
+    let modes = [PrintMode::Plain, PrintMode::Boosted, PrintMode::Parens, PrintMode::Quoted, PrintMode::Spaced];
+    let Some((mode, (mut cur_text, mut cur_detail))) =
+        modes.iter().find_map(|m| fails_in(node, *m).map(|r| (*m, r)))
+    else {
+        return (node.clone(), text.to_string(), detail, None);
     };
+    let fails = |n: &Node| fails_in(n, mode);
     let mut cur = node.clone();
-    let mut budget = 300;
+    let mut budget = 800;
     'outer: loop {
         for cand in simplifications(&cur) {
             budget -= 1;
@@ -707,7 +950,357 @@ fn shrink(
         }
         break;
     }
-    (cur, cur_text, cur_detail, true)
+    (cur, cur_text, cur_detail, Some(mode))
+}
+
+// ---------------------------------------------------------------------------------------------
+// totality workers: the parsers run in child processes, because a hang, unbounded memory growth or
+// a stack overflow cannot be caught inside the process
+
+struct RemoteOutcome {
+    violations: Vec<(String, Value)>,
+    grammar_strict_ok: bool,
+    qp_strict_ok: u32,
+    qp_err_kinds: Vec<String>,
+    lenient_err_kinds: Vec<String>,
+    slowest_ms: u64,
+}
+
+enum Remote {
+    Done(RemoteOutcome),
+    Failed { how: &'static str, api: String, detail: Value },
+    Unreproduced(String),
+    Harness(String),
+}
+
+/// address-space cap of a worker: an allocation loop ends in an abort instead of eating the host
+fn limit_memory(bytes: u64) {
+    let lim = libc::rlimit { rlim_cur: bytes as libc::rlim_t, rlim_max: bytes as libc::rlim_t };
+    // SAFETY: plain setrlimit call with a valid struct
+    unsafe {
+        libc::setrlimit(libc::RLIMIT_AS, &lim);
+        let core = libc::rlimit { rlim_cur: 0, rlim_max: 0 };
+        libc::setrlimit(libc::RLIMIT_CORE, &core);
+    }
+}
+
+const WORKER_MEM: u64 = 384 << 20;
+const ONE_SHOT_CPU_SECS: u64 = 30;
+
+fn api_names() -> Vec<String> {
+    let mut v = vec!["grammar-parse_query".to_string(), "grammar-parse_query_lenient".to_string()];
+    for (name, _) in &env().parsers {
+        v.push(format!("QueryParser-parse_query[{name}]"));
+        v.push(format!("QueryParser-parse_query_lenient[{name}]"));
+    }
+    v
+}
+
+/// `--child-total`: loop { read "<len>\n<bytes>", check, answer with one JSON line }
+fn child_total_main() -> ! {
+    use std::io::{BufRead, Read};
+    limit_memory(WORKER_MEM);
+    let _ = env();
+    let stdin = std::io::stdin();
+    let mut rd = std::io::BufReader::new(stdin.lock());
+    let stdout = std::io::stdout();
+    loop {
+        let mut line = String::new();
+        match rd.read_line(&mut line) {
+            Ok(0) | Err(_) => std::process::exit(0),
+            Ok(_) => {}
+        }
+        let Ok(n) = line.trim().parse::<usize>() else { std::process::exit(3) };
+        let mut buf = vec![0u8; n];
+        if rd.read_exact(&mut buf).is_err() {
+            std::process::exit(3);
+        }
+        let Ok(input) = String::from_utf8(buf) else { std::process::exit(3) };
+        let mut rep = Report::new();
+        let out = check_totality(&input, &mut rep);
+        let answer = json!({
+            "v": rep.violations.iter().map(|v| json!([v.sig, v.detail])).collect::<Vec<_>>(),
+            "gs": out.grammar_strict_ok,
+            "qs": out.qp_strict_ok,
+            "qe": out.qp_err_kinds,
+            "le": out.lenient_err_kinds,
+            "ms": out.slowest.as_millis() as u64,
+        });
+        let mut o = stdout.lock();
+        if writeln!(o, "{answer}").is_err() || o.flush().is_err() {
+            std::process::exit(0);
+        }
+    }
+}
+
+/// `--child-one <api index>`: input on stdin, one call, exit 0
+fn child_one_main(args: &[String]) -> ! {
+    use std::io::Read;
+    limit_memory(WORKER_MEM);
+    // CPU time, not wall time, decides "hang": the host may be heavily loaded
+    let cpu = libc::rlimit { rlim_cur: ONE_SHOT_CPU_SECS, rlim_max: ONE_SHOT_CPU_SECS + 5 };
+    // SAFETY: plain setrlimit call with a valid struct
+    unsafe {
+        libc::setrlimit(libc::RLIMIT_CPU, &cpu);
+    }
+    let api: usize = args.first().and_then(|s| s.parse().ok()).unwrap_or(0);
+    let mut input = String::new();
+    if std::io::stdin().read_to_string(&mut input).is_err() {
+        std::process::exit(3);
+    }
+    match api {
+        0 => drop(qg::parse_query(&input)),
+        1 => drop(qg::parse_query_lenient(&input)),
+        k => {
+            let (_, qp) = &env().parsers[((k - 2) / 2).min(env().parsers.len() - 1)];
+            if k % 2 == 0 {
+                drop(qp.parse_query(&input));
+            } else {
+                drop(qp.parse_query_lenient(&input));
+            }
+        }
+    }
+    std::process::exit(0);
+}
+
+struct Worker {
+    child: std::process::Child,
+    stdin: std::process::ChildStdin,
+    stdout: std::process::ChildStdout,
+    buf: Vec<u8>,
+}
+
+enum Reply {
+    Line(String),
+    Timeout,
+    Died,
+}
+
+impl Worker {
+    fn spawn() -> Result<Worker, String> {
+        use std::process::{Command, Stdio};
+        let exe = std::env::current_exe().map_err(|e| e.to_string())?;
+        let mut child = Command::new(exe)
+            .arg("--child-total")
+            .stdin(Stdio::piped())
+            .stdout(Stdio::piped())
+            .stderr(Stdio::piped())
+            .spawn()
+            .map_err(|e| e.to_string())?;
+        let stdin = child.stdin.take().ok_or("no stdin")?;
+        let stdout = child.stdout.take().ok_or("no stdout")?;
+        Ok(Worker { child, stdin, stdout, buf: vec![] })
+    }
+
+    fn request(&mut self, input: &str, timeout: Duration) -> Reply {
+        use std::io::Read;
+        use std::os::fd::AsRawFd;
+        let header = format!("{}\n", input.len());
+        if self.stdin.write_all(header.as_bytes()).is_err()
+            || self.stdin.write_all(input.as_bytes()).is_err()
+            || self.stdin.flush().is_err()
+        {
+            return Reply::Died;
+        }
+        let t0 = Instant::now();
+        loop {
+            if let Some(pos) = self.buf.iter().position(|b| *b == b'\n') {
+                let line: Vec<u8> = self.buf.drain(..=pos).collect();
+                return Reply::Line(String::from_utf8_lossy(&line).into_owned());
+            }
+            let left = timeout.saturating_sub(t0.elapsed());
+            if left.is_zero() {
+                return Reply::Timeout;
+            }
+            let mut pfd = libc::pollfd { fd: self.stdout.as_raw_fd(), events: libc::POLLIN, revents: 0 };
+            // SAFETY: one valid pollfd
+            let r = unsafe { libc::poll(&mut pfd, 1, left.as_millis().min(1000) as i32) };
+            if r < 0 {
+                continue;
+            }
+            if r == 0 {
+                continue;
+            }
+            let mut chunk = [0u8; 65536];
+            match self.stdout.read(&mut chunk) {
+                Ok(0) => return Reply::Died,
+                Ok(n) => self.buf.extend_from_slice(&chunk[..n]),
+                Err(_) => return Reply::Died,
+            }
+        }
+    }
+
+    /// kills the child and returns (signal, stderr tail)
+    fn bury(mut self) -> (Option<i32>, String) {
+        use std::io::Read;
+        use std::os::unix::process::ExitStatusExt;
+        let _ = self.child.kill();
+        let status = self.child.wait().ok();
+        let mut err = String::new();
+        if let Some(mut e) = self.child.stderr.take() {
+            let _ = e.read_to_string(&mut err);
+        }
+        let tail: String = err.lines().rev().take(3).collect::<Vec<_>>().join(" | ").chars().take(300).collect();
+        (status.and_then(|s| s.signal()), tail)
+    }
+}
+
+fn pool() -> &'static std::sync::Mutex<Vec<Worker>> {
+    static POOL: OnceLock<std::sync::Mutex<Vec<Worker>>> = OnceLock::new();
+    POOL.get_or_init(|| std::sync::Mutex::new(vec![]))
+}
+
+fn shutdown_pool() {
+    let workers: Vec<Worker> = std::mem::take(&mut *pool().lock().unwrap_or_else(|e| e.into_inner()));
+    for w in workers {
+        let _ = w.bury();
+    }
+}
+
+fn patience(input: &str) -> Duration {
+    Duration::from_secs(60 + input.len() as u64 / 5_000)
+}
+
+/// how a one-shot child running a single entry point on `input` ends
+fn one_shot(api: usize, input: &str) -> ChildEnd {
+    use std::os::unix::process::ExitStatusExt;
+    use std::process::{Command, Stdio};
+    let exe = match std::env::current_exe() {
+        Ok(e) => e,
+        Err(e) => return ChildEnd::Spawn(e.to_string()),
+    };
+    let mut child = match Command::new(exe)
+        .arg("--child-one")
+        .arg(api.to_string())
+        .stdin(Stdio::piped())
+        .stdout(Stdio::null())
+        .stderr(Stdio::piped())
+        .spawn()
+    {
+        Ok(c) => c,
+        Err(e) => return ChildEnd::Spawn(e.to_string()),
+    };
+    if let Some(mut si) = child.stdin.take() {
+        let _ = si.write_all(input.as_bytes());
+    }
+    let t0 = Instant::now();
+    let limit = Duration::from_secs(600);
+    loop {
+        match child.try_wait() {
+            Ok(Some(status)) => {
+                let mut err = String::new();
+                use std::io::Read;
+                if let Some(mut e) = child.stderr.take() {
+                    let _ = e.read_to_string(&mut err);
+                }
+                let tail: String = err.lines().rev().take(3).collect::<Vec<_>>().join(" | ").chars().take(300).collect();
+                if let Some(sig) = status.signal() {
+                    if sig == libc::SIGXCPU || sig == libc::SIGKILL {
+                        // CPU limit reached (soft: SIGXCPU, hard: SIGKILL)
+                        return ChildEnd::Timeout;
+                    }
+                    return ChildEnd::Signal(sig, tail);
+                }
+                return match status.code() {
+                    Some(0) => ChildEnd::Ok(String::new()),
+                    Some(c) => ChildEnd::Panic(format!("exit code {c}; {tail}")),
+                    None => ChildEnd::Panic("no exit code".into()),
+                };
+            }
+            Ok(None) => {
+                if t0.elapsed() > limit {
+                    let _ = child.kill();
+                    let _ = child.wait();
+                    return ChildEnd::Timeout;
+                }
+                std::thread::sleep(Duration::from_millis(3));
+            }
+            Err(e) => return ChildEnd::Spawn(e.to_string()),
+        }
+    }
+}
+
+fn failure_kind(end: &ChildEnd) -> Option<&'static str> {
+    match end {
+        ChildEnd::Timeout => Some("no-result:hang-or-out-of-memory"),
+        ChildEnd::Signal(_, tail) if tail.contains("memory allocation") => Some("no-result:hang-or-out-of-memory"),
+        ChildEnd::Signal(_, tail) if tail.contains("stack overflow") => Some("abort:stack-overflow"),
+        ChildEnd::Signal(_, _) => Some("abort:killed-by-signal"),
+        ChildEnd::Panic(_) => Some("abort:abnormal-exit"),
+        ChildEnd::Ok(_) | ChildEnd::Spawn(_) => None,
+    }
+}
+
+fn remote_check(input: &str) -> Remote {
+    let taken = pool().lock().unwrap_or_else(|e| e.into_inner()).pop();
+    let mut w = match taken {
+        Some(w) => w,
+        None => match Worker::spawn() {
+            Ok(w) => w,
+            Err(e) => return Remote::Harness(format!("spawn: {e}")),
+        },
+    };
+    match w.request(input, patience(input)) {
+        Reply::Line(line) => {
+            pool().lock().unwrap_or_else(|e| e.into_inner()).push(w);
+            let v: Value = match serde_json::from_str(&line) {
+                Ok(v) => v,
+                Err(e) => return Remote::Harness(format!("bad answer from worker: {e}")),
+            };
+            let strs = |k: &str| -> Vec<String> {
+                v[k].as_array()
+                    .map(|a| a.iter().filter_map(|x| x.as_str().map(String::from)).collect())
+                    .unwrap_or_default()
+            };
+            Remote::Done(RemoteOutcome {
+                violations: v["v"]
+                    .as_array()
+                    .map(|a| {
+                        a.iter()
+                            .filter_map(|p| Some((p.get(0)?.as_str()?.to_string(), p.get(1)?.clone())))
+                            .collect()
+                    })
+                    .unwrap_or_default(),
+                grammar_strict_ok: v["gs"].as_bool().unwrap_or(false),
+                qp_strict_ok: v["qs"].as_u64().unwrap_or(0) as u32,
+                qp_err_kinds: strs("qe"),
+                lenient_err_kinds: strs("le"),
+                slowest_ms: v["ms"].as_u64().unwrap_or(0),
+            })
+        }
+        reply => {
+            let timed_out = matches!(reply, Reply::Timeout);
+            let (signal, stderr_tail) = w.bury();
+            // attribute: which entry point alone reproduces it (grammar first: the QueryParser
+            // entry points call the grammar)
+            let names = api_names();
+            let mut seen = vec![];
+            for (k, name) in names.iter().enumerate() {
+                let end = one_shot(k, input);
+                if let ChildEnd::Spawn(e) = &end {
+                    return Remote::Harness(format!("one-shot child: {e}"));
+                }
+                if let Some(kind) = failure_kind(&end) {
+                    let api = name.split('[').next().unwrap_or(name).to_string();
+                    return Remote::Failed {
+                        how: kind,
+                        api,
+                        detail: json!({"entry_point": name, "how": format!("{end:?}"),
+                            "worker": {"timed_out": timed_out, "signal": signal, "stderr": stderr_tail},
+                            "entry_points_that_returned": seen,
+                            "memory_cap_bytes": WORKER_MEM}),
+                    };
+                }
+                seen.push(name.clone());
+            }
+            // the batch worker failed but no single call does (heavily loaded host, or state
+            // carried between inputs): not a verdict
+            Remote::Unreproduced(format!(
+                "worker {} (signal {signal:?}, stderr {stderr_tail:?}) but every single entry point returned",
+                if timed_out { "timed out" } else { "died" }
+            ))
+        }
+    }
 }
 
 // ---------------------------------------------------------------------------------------------
@@ -843,10 +1436,15 @@ fn run_child(kind: &str, n: usize, api: &str) -> ChildEnd {
 fn depth_sweep(ctx: &Ctx) -> Report {
     let mut rep = Report::new();
     rep.cur_stream = "depth".to_string();
-    let depths: Vec<usize> = if ctx.quick() {
-        vec![100, 1_000, 5_000, 20_000]
-    } else {
-        vec![100, 300, 1_000, 2_500, 5_000, 10_000, 20_000, 50_000, 100_000]
+    let ladder = |kind: &str| -> Vec<usize> {
+        // `NOT NOT ... a` takes quadratic time (duplicate-clause removal hashes every subtree), so
+        // its ladder stops earlier
+        match (ctx.quick(), kind == "not-chain") {
+            (true, false) => vec![100, 1_000, 5_000, 20_000],
+            (true, true) => vec![100, 1_000, 3_000, 6_000],
+            (false, false) => vec![100, 300, 1_000, 2_500, 5_000, 10_000, 20_000, 50_000, 100_000],
+            (false, true) => vec![100, 300, 1_000, 2_500, 5_000, 10_000, 20_000],
+        }
     };
     // one job per (kind, api): walk up the ladder, then bisect to the smallest failing depth
     let jobs: Vec<(&str, &str)> = DEPTH_KINDS
@@ -857,7 +1455,7 @@ fn depth_sweep(ctx: &Ctx) -> Report {
         let next = std::sync::atomic::AtomicUsize::new(0);
         let out = std::sync::Mutex::new(vec![]);
         std::thread::scope(|s| {
-            for _ in 0..ctx.threads.clamp(1, 8) {
+            for _ in 0..ctx.threads.clamp(1, 16) {
                 s.spawn(|| loop {
                     let i = next.fetch_add(1, std::sync::atomic::Ordering::Relaxed);
                     if i >= jobs.len() {
@@ -867,7 +1465,7 @@ fn depth_sweep(ctx: &Ctx) -> Report {
                     let mut children = 0u64;
                     let mut last_ok = 0usize;
                     let mut fail: Option<(usize, ChildEnd)> = None;
-                    for &d in &depths {
+                    for &d in &ladder(kind) {
                         children += 1;
                         match run_child(kind, d, api) {
                             ChildEnd::Ok(_) => last_ok = d,
@@ -881,7 +1479,7 @@ fn depth_sweep(ctx: &Ctx) -> Report {
                     if let Some((mut hi, mut end)) = fail {
                         let mut lo = last_ok;
                         // bisect (the threshold is monotone for all practical purposes)
-                        while hi - lo > (hi / 50).max(1) {
+                        while hi - lo > (hi / if ctx.quick() { 10 } else { 50 }).max(1) {
                             let mid = lo + (hi - lo) / 2;
                             children += 1;
                             match run_child(kind, mid, api) {
@@ -955,6 +1553,12 @@ fn main() {
     if let Some(i) = argv.iter().position(|a| a == "--child-depth") {
         child_main(&argv[i + 1..]);
     }
+    if argv.iter().any(|a| a == "--child-total") {
+        child_total_main();
+    }
+    if let Some(i) = argv.iter().position(|a| a == "--child-one") {
+        child_one_main(&argv[i + 1..]);
+    }
     let ctx = Ctx::from_env("C16", "exploration");
     let thorough = !ctx.quick();
     let mut rep = Report::new();
@@ -974,13 +1578,24 @@ fn main() {
     let n_sem = ctx.scale(200, 4_000) as u64;
     if want("sem") {
         rep.merge(run_cases(&ctx, "sem", n_sem, |c, rng, rep| sem_case(c, rng, rep, per_corpus)));
+        shutdown_pool();
     }
     let n_total = std::env::var("C16_TOTAL_N")
         .ok()
         .and_then(|v| v.parse().ok())
-        .unwrap_or(ctx.scale(20_000, 2_000_000) as u64);
+        .unwrap_or(ctx.scale(10_000, 300_000) as u64);
     if want("total") {
         rep.merge(run_cases(&ctx, "total", n_total, |c, rng, rep| total_case(c, rng, rep, thorough)));
+        shutdown_pool();
+    }
+    // debugging knob: C16_DUMP=<file> writes every violation as one JSON line
+    if let Ok(path) = std::env::var("C16_DUMP") {
+        let mut out = String::new();
+        for v in &rep.violations {
+            out.push_str(&json!({"sig": v.sig, "stream": v.stream, "case": v.case, "detail": v.detail}).to_string());
+            out.push('\n');
+        }
+        let _ = std::fs::write(path, out);
     }
     simple_finish(
         &ctx,
